@@ -766,6 +766,15 @@ fn mutate(base: &[u8], w: &Walk, m: &J) -> (Vec<u8>, J) {
                 let tidx: u64 = f.path[1..f.path.find(']').unwrap_or(1)].parse().unwrap_or(0);
                 put(&mut b, f.off, 4, tidx);
                 fs.push(field_json(f, "self", tidx));
+                if m["detach"].as_bool().unwrap_or(false) {
+                    // aliases naming the now-cyclic type are pointed at its former target, so
+                    // that the cycle is reachable only through its own entry (and the constant)
+                    for g in w.fields.iter().filter(|g| g.sec == "TYPE_TABLE" && g.path.ends_with(".alias.target_type_id")
+                                                     && g.old == tidx && g.off != f.off) {
+                        put(&mut b, g.off, 4, f.old);
+                        fs.push(field_json(g, "detach", f.old));
+                    }
+                }
                 if !w.const_type_fields.is_empty() && m["retarget"].as_bool().unwrap_or(true) {
                     let cf = &w.fields[w.const_type_fields[(m["k2"].as_u64().unwrap_or(0) % w.const_type_fields.len() as u64) as usize]];
                     put(&mut b, cf.off, 4, tidx);
@@ -1056,7 +1065,7 @@ fn gen_mut(rng: &mut StdRng) -> J {
         }
         _ => {
             let via = ch(rng, &["alias", "alias", "subrange", "array", "field"]);
-            json!({"kind": "cycle", "via": via, "k": k, "k2": k2 % 1000, "retarget": rng.gen_bool(0.8)})
+            json!({"kind": "cycle", "via": via, "k": k, "k2": k2 % 1000, "retarget": rng.gen_bool(0.8), "detach": rng.gen_bool(0.5)})
         }
     }
 }
@@ -1127,6 +1136,7 @@ pub fn gen(args: &[String]) -> i32 {
         for via in ["alias", "subrange", "array", "field"] {
             for k in 0..4u64 {
                 line(json!({"kind": "cycle", "via": via, "k": k, "k2": k * 7, "retarget": true}));
+                line(json!({"kind": "cycle", "via": via, "k": k, "k2": k * 7, "retarget": true, "detach": true}));
             }
         }
     }
